@@ -36,7 +36,7 @@ class UpdateModels(c18.EnvModels):
 
         def turn(c):
             """the document whose generator / question is being asked: the last one that reached its executor"""
-            return c.notes["docs"][len(c.notes.get("calls", [])) - 1]
+            return c.notes["runs"][len(c.notes.get("calls", [])) - 1]
 
         def generate(c, m, a):
             d = turn(c)
